@@ -713,6 +713,13 @@ def to_onnx(
                 pass
             return dest
 
+        # onnx appends to an existing external-data file: a sidecar left by an
+        # earlier export to the same path must not become part of this one.
+        try:
+            if os.path.exists(data_path):
+                os.remove(data_path)
+        except OSError:
+            pass
         onnx.save_model(
             model_proto,
             dest,
